@@ -6,14 +6,29 @@ from vf import cme as cmemod, distcheck, gen, ref, spec as specmod
 from vf.core import R
 
 
-def simulate_paths_factory(sp, grid, how):
+def grid_array(grid, layout):
+    """The same time values in different (all valid) memory layouts."""
+    g = np.array(grid, dtype=float)
+    if layout == "strided":
+        wide = np.empty(2 * len(g))
+        wide[::2] = g
+        wide[1::2] = -1.0
+        return wide[::2]
+    if layout == "column":
+        table = np.full((len(g), 3), -1.0)
+        table[:, 1] = g
+        return table[:, 1]
+    return g
+
+
+def simulate_paths_factory(sp, grid, how, layout="contiguous"):
     """Returns simulate(n, seed) -> (n, T, nspecies in spec order)."""
     from bioscrape.simulator import ModelCSimInterface, SafeModelCSimInterface, SSASimulator, py_simulate_model
     from bioscrape.random import py_seed_random
     with specmod.quiet():
         M = specmod.to_model(sp)
         I = SafeModelCSimInterface(M) if how == "safe" else ModelCSimInterface(M)
-    tp = np.array(grid, dtype=float)
+    tp = grid_array(grid, layout)
     if len(tp) > 1:
         I.py_set_dt(float(tp[1] - tp[0]))
     order = [M.get_species2index()[s] for s in sp["species"]]
@@ -44,7 +59,7 @@ def check(case):
         res.skip = "state space above cap"
         return res
     n1 = case["n1"] if how != "model_api" else max(case["n1"] // 20, 300)
-    simulate = simulate_paths_factory(sp, grid, how)
+    simulate = simulate_paths_factory(sp, grid, how, case.get("layout", "contiguous"))
     rej, report = distcheck.compare(cme, grid, simulate, n1, case["seed"], case["seed"] + 7919)
     types = sorted({rx["type"] for rx in sp["reactions"]})
     for name, p, info in rej:
@@ -53,6 +68,8 @@ def check(case):
                  states=cme.n)
         break
     res.label("how:" + how, *["type:" + t for t in types])
+    res.label("reactions:%d" % len(sp["reactions"]), "grid_layout:" + case.get("layout", "contiguous"),
+              "grid_starts_at_0" if grid[0] == 0 else "grid_starts_later")
     orders = [len(rx["r"]) for rx in sp["reactions"] if rx["type"] == "massaction"]
     if any(o >= 2 for o in orders):
         res.label("order>=2")
@@ -79,18 +96,26 @@ def grids(draw):
         g = [0.0]
         for d in incs:
             g.append(round(g[-1] + d, 10))
+    if draw(st.integers(0, 3)) == 0:
+        # the first reported time need not be the start of the simulation (which is the interface's initial time, 0)
+        off = draw(st.sampled_from([0.25, 1.0, g[1] - g[0]]))
+        g = [round(t + off, 10) for t in g]
     return g
 
 
 @st.composite
 def cases(draw, n1):
     how = draw(st.sampled_from(["interface"] * 5 + ["safe"] * 3 + ["model_api"]))
-    sp = draw(gen.finite_networks(safe=(how == "safe")))
+    if draw(st.integers(0, 3)) == 0:
+        sp = draw(gen.finite_networks(safe=(how == "safe"), max_rx=7, min_rx=5, max_count=4))
+    else:
+        sp = draw(gen.finite_networks(safe=(how == "safe")))
     return {"kind": "cme", "spec": sp, "grid": draw(grids()), "how": how, "n1": n1,
+            "layout": draw(st.sampled_from(["contiguous", "contiguous", "strided", "column"])),
             "seed": draw(st.integers(1, 2 ** 40))}
 
 
 def search(ctx):
     scale = ctx.job.get("scale", 1)
     n1 = 40000 if ctx.thorough else 10000
-    ctx.run_hypothesis("cme", cases(n1), check, ctx.share((8000 if ctx.thorough else 700) * scale), shrink=False)
+    ctx.run_hypothesis("cme", cases(n1), check, ctx.share((8000 if ctx.thorough else 1000) * scale), shrink=False)
